@@ -40,6 +40,8 @@ def pick_names(rng, n):
 
 FAMILIES = ["grid", "dyadic", "generic", "nested", "identical", "longoverlap", "touching", "negative",
             "offset", "tiny", "mixeddur", "dense"]
+# "coarse" (times float32 cannot hold exactly) is NOT in the default list: only the checks whose reference follows the
+# library's float32 model ask for it explicitly
 
 
 # --------------------------------------------------------------------------- continua
@@ -84,6 +86,15 @@ def gen_segments(rng, family, k, horizon=None):
         for _ in range(k):
             s = base + rng.randrange(0, 8 * T) / 8.0
             segs.append((s, s + rng.randint(1, 40) / 8.0))
+    elif family == "coarse":
+        # timestamps coarser than float32 can resolve (around 2**24 the float32 step is 2) next to units near 0: every
+        # computation must round them the same way
+        for _ in range(k):
+            if rng.random() < 0.5:
+                s = float(2 ** 24 + rng.randrange(-40, 400))
+            else:
+                s = float(rng.randrange(0, 40))
+            segs.append((s, s + float(rng.choice([3, 5, 8, 12, 31]))))
     elif family == "dense":
         # many overlapping units in a short span: the integer programme is not solved at the root node
         for _ in range(k):
